@@ -157,7 +157,66 @@ func Load(repo string, tags string, whole bool, extraPkgs ...string) (*Ctx, erro
 		return nil, fmt.Errorf("only %d module packages loaded (expected >= 40)", n)
 	}
 	sort.Slice(c.Funcs, func(i, j int) bool { return c.Funcs[i].String() < c.Funcs[j].String() })
+	if os.Getenv("STCHECK_DUMPSIGS") != "" {
+		for _, f := range c.Funcs {
+			if k := sigKey(f); k != "" {
+				fmt.Printf("SIG\t%q: %q,\n", k, sigOf(f))
+			}
+		}
+	}
 	return c, nil
+}
+
+// sigKey names an unexported top-level function or method of the module: "<package>.<name>" or
+// "<package>.(<receiver type>).<name>"; "" for anything else.
+func sigKey(f *ssa.Function) string {
+	if f.Parent() != nil || f.Synthetic != "" || f.Object() == nil || f.Object().Exported() || f.Origin() != nil {
+		return ""
+	}
+	rel := strings.TrimPrefix(pkgPathOf(f), modPkg)
+	if recv := f.Signature.Recv(); recv != nil {
+		t := recv.Type()
+		if p, ok := t.(*types.Pointer); ok {
+			t = p.Elem()
+		}
+		if n, ok := t.(*types.Named); ok {
+			return rel + ".(" + n.Obj().Name() + ")." + f.Name()
+		}
+		return ""
+	}
+	return rel + "." + f.Name()
+}
+
+func sigOf(f *ssa.Function) string {
+	return types.TypeString(f.Signature, func(p *types.Package) string { return p.Path() })
+}
+
+// renamedAnchor: the function recorded under key on the reference tree is gone; if exactly one unexported function of
+// the same package (and receiver type) has the recorded signature and a name the reference tree did not have, it is
+// the same function under a new name.
+func (c *Ctx) renamedAnchor(key string) *ssa.Function {
+	want, ok := anchorSigs[key]
+	if !ok {
+		return nil
+	}
+	prefix := key[:strings.LastIndex(key, ".")+1]
+	var found []*ssa.Function
+	for _, f := range c.Funcs {
+		k := sigKey(f)
+		if k == "" || !strings.HasPrefix(k, prefix) || strings.Contains(k[len(prefix):], ".") {
+			continue
+		}
+		if _, existed := anchorSigs[k]; existed {
+			continue
+		}
+		if sigOf(f) == want {
+			found = append(found, f)
+		}
+	}
+	if len(found) == 1 {
+		return found[0]
+	}
+	return nil
 }
 
 func allFuncs(p *ssa.Package) []*ssa.Function {
@@ -221,7 +280,7 @@ func (c *Ctx) Fn(rel, name string) *ssa.Function {
 	if len(found) == 1 {
 		return found[0]
 	}
-	return nil
+	return c.renamedAnchor(rel + "." + name)
 }
 
 func (c *Ctx) ExtFn(pkg, name string) *ssa.Function {
@@ -249,7 +308,7 @@ func (c *Ctx) Method(rel, typ, name string) *ssa.Function {
 			}
 		}
 	}
-	return nil
+	return c.renamedAnchor(rel + ".(" + typ + ")." + name)
 }
 
 func (c *Ctx) MethodIn(pkg, typ, name string) *ssa.Function {
